@@ -2,4 +2,4 @@ From Coq Require Extraction.
 From Coq Require Import ExtrOcamlBasic.
 From Tickit Require Import Csi VT TermPenDefs XtermDefs XtermSpec TermApiDefs TermApiSpec.
 Extraction "mC09.ml" render lex vt_init vt_run_bytes vt_freeze with_pattern xt_start xdrv_new
-  drv_req api_step req_of_api quiet_api oracle_walk oracle_walk_excl empty_pen pset has_attr.
+  drv_req api_step req_of_api quiet_api oracle_walk oracle_walk_excl empty_pen pset has_attr set_md md_set_lrmm.
